@@ -3,6 +3,7 @@
 package absnfs
 
 import (
+	"io"
 	"bytes"
 	"fmt"
 	"math/rand"
@@ -58,6 +59,7 @@ func TestVerif_C01(t *testing.T) {
 	rec := evid.New("C01")
 	rec.Rule = "seeded episodes of WRITE/READ/SETATTR(size)/GETATTR/CREATE on 1-3 files; a case is one request; distinct = (op, offset class, count class, outcome, cache TTL, transfer size) tuples"
 	defer rec.Write()
+	vfC01ShortWrites(rec)
 	episodes := evid.Pick(120, 4000)
 	for ep := 0; ep < episodes && rec.Violations() < 20; ep++ {
 		vfC01Episode(rec, ep)
@@ -428,5 +430,79 @@ func vfPickCount(rng *rand.Rand, ts int) int {
 		return ts + 1 + rng.Intn(ts)
 	default:
 		return 1 + rng.Intn(ts)
+	}
+}
+
+// vfC01ShortWrites: a backend that takes only part of the buffer on one WriteAt (with and without an
+// error of its own). Whatever the server does about it - report the short count, retry, or fail the
+// request - an NFS3_OK reply with count n means exactly payload[:n] is in the file at the offset, and
+// a READ afterwards returns the backend's bytes.
+func vfC01ShortWrites(rec *evid.Rec) {
+	for _, withErr := range []bool{false, true} {
+		for _, taken := range []int{0, 1, 24, 63} {
+			for _, ttl := range []time.Duration{1, time.Hour} {
+				fs := refs.New()
+				orig := bytes.Repeat([]byte("o"), 100)
+				fs.PlantFile("/w", orig, 0666, 0, 0)
+				srv, err := vfNewSrv(fs, ExportOptions{AttrCacheTimeout: ttl})
+				if err != nil {
+					rec.Infra(err.Error())
+					return
+				}
+				c := srv.client()
+				root, _ := c.mnt("/")
+				l, _ := c.lookup(root, "w")
+				if l == nil || l.Status != 0 {
+					rec.Infra("lookup w")
+					srv.Close()
+					return
+				}
+				fh := vfFH(l.FH)
+				payload := make([]byte, 64)
+				for i := range payload {
+					payload[i] = byte('A' + i%26)
+				}
+				var once sync.Once
+				fs.SetHook(func(op *refs.Op, ph refs.Phase) error {
+					var e error
+					if ph == refs.Before && op.Name == "File.WriteAt" && op.Path == "/w" {
+						once.Do(func() {
+							sw := &refs.ShortWrite{N: taken}
+							if withErr {
+								sw.Err = io.ErrShortWrite
+							}
+							e = sw
+						})
+					}
+					return e
+				})
+				w, _ := c.write(fh, 10, 2, payload)
+				fs.SetHook(nil)
+				rec.Eval(1)
+				desc := map[string]any{"backend_took": taken, "backend_error": withErr, "ttl": ttl.String()}
+				outcome := "no-reply"
+				if w != nil {
+					outcome = fmt.Sprintf("status=%d", w.Status)
+					got, _ := fs.Bytes("/w")
+					if w.Status == 0 {
+						outcome = fmt.Sprintf("ok-count=%d", w.Count)
+						model := append([]byte(nil), orig...)
+						if int(w.Count) > len(payload) {
+							rec.Violate("C01/write-count-exceeds-request/short-backend-write", fmt.Sprintf("count %d for a %d-byte WRITE", w.Count, len(payload)), desc)
+						} else {
+							copy(model[10:], payload[:w.Count])
+							if !bytes.Equal(got, model) {
+								rec.Violate("C01/backend-bytes-differ/after=WRITE-ok/backend-took-part-of-the-buffer", fmt.Sprintf("the backend's WriteAt took %d of 64 bytes (error from the backend: %v); the server answered NFS3_OK count=%d; bytes 10..74 of the file are %q, payload[:count] at the offset would be %q", taken, withErr, w.Count, got[10:74], model[10:74]), desc)
+							}
+						}
+					}
+					if r, _ := c.read(fh, 0, 200); r != nil && r.Status == 0 && !bytes.Equal(r.Data, got) {
+						rec.Violate("C01/read-differs-from-backend/after-a-short-backend-write", fmt.Sprintf("READ returns %q, the backend holds %q", r.Data, got), desc)
+					}
+				}
+				rec.Distinct(fmt.Sprintf("short-write|took=%d|err=%v|ttl=%v|%s", taken, withErr, ttl, outcome))
+				srv.Close()
+			}
+		}
 	}
 }
